@@ -110,7 +110,7 @@ CasesSound == /\ \A c \in Cases : c.cls \in Classes
 
 (* ------------------------------------------------------------------------------ the vacuity guard *)
 MOps(h) == IF h = "T" THEN {"transformStream", "setStylesheetParam", "clearStylesheetParams"} ELSE {"XalanCreateXPath"}
-MClasses == {"seed", "truncate", "fuzz"}          \* must succeed, must fail, open
+MClasses == {"seed", "truncate", "fuzz", "undefinedVariable"}          \* must succeed, must fail, open, fails when evaluated
 MH == {"T", "X"}
 Alphabet ==
        {[e |-> "Call", h |-> h, op |-> o, cls |-> c, d |-> 0] : h \in MH, o \in MOps("T") \cup MOps("X"), c \in MClasses}
@@ -136,7 +136,8 @@ Good(t) ==
           /\ afterCall /\ t[i - 1].h = e.h /\ t[i - 1].op = e.op
           /\ (e.op \in DeferredOps => e.status = 0)
           /\ (e.op \notin DeferredOps /\ Verdict(t[i - 1].cls, t[i - 1].d) = "valid" => e.status = 0)          \* P3
-          /\ (e.op \notin DeferredOps /\ Verdict(t[i - 1].cls, t[i - 1].d) = "invalid" => e.status # 0)
+          /\ (e.op \notin DeferredOps /\ Verdict(t[i - 1].cls, t[i - 1].d) = "invalid"
+                 /\ ~(t[i - 1].cls \in DynamicErrorClasses /\ e.op \in CompileOps) => e.status # 0)
           /\ (e.status # 0 /\ HasMessageChannel(e.h) => ~e.msgEmpty))                                          \* P2
     /\ (e.e = "Probe" => e.status = 0 /\ e.out = ProbeExpected(e.h) /\ ~PendingParam(t, i, e.h))               \* P4
     /\ (e.e = "LeakCheck" => e.clean)
